@@ -105,51 +105,75 @@ Definition rms_close (rel abs : Q) (m : rms) (im iv ic : Q) : bool :=
   qclose rel abs (r_mean m) im && qclose rel abs (r_var m) iv && qclose rel abs (r_count m) ic.
 
 (* the hint s is the square root of var + eps (relative 1e-8), and y is the clipped standardised x *)
-Definition sqrt_hint_ok (s var eps : Q) : bool :=
-  Qle_bool 0 s && qclose (1 # 100000000) 0 (var + eps) (s * s).
-Definition norm_out_ok (x mean var eps s c y : Q) : bool :=
-  sqrt_hint_ok s var eps && qclose (1 # 100000) (1 # 1000000) (normalize_s x mean s c) y.
-Definition unnorm_out_ok (y mean var eps s x : Q) : bool :=
-  sqrt_hint_ok s var eps && qclose (1 # 100000) (1 # 1000000) (unnormalize_s y mean s) x.
+(* th = tolerance of the hint: it is computed by the harness from the implementation's variance, which may differ
+   from the model's by the statistics tolerance *)
+Definition sqrt_hint_ok (th s var eps : Q) : bool :=
+  Qle_bool 0 s && qclose th 0 (var + eps) (s * s).
+Definition norm_out_ok (th x mean var eps s c y : Q) : bool :=
+  sqrt_hint_ok th s var eps && qclose (1 # 100000) (1 # 1000000) (normalize_s x mean s c) y.
+Definition unnorm_out_ok (th y mean var eps s x : Q) : bool :=
+  sqrt_hint_ok th s var eps && qclose (1 # 100000) (1 # 1000000) (unnormalize_s y mean s) x.
 
 Definition vn_run_red := vn_run update_red Qred.
 
 (* ---- trace checker: run the history and compare with what the implementation showed after every
-   operation (statistics at rel/abs 1e-9, float32 outputs at 1e-5); everything is decided inside Coq ---- *)
+   operation; everything is decided inside Coq.  tol = tolerance for the observation statistics (1e-9 when the
+   float32 batch moments are exact, 1e-5 otherwise); return statistics 1e-9; float32 outputs 1e-5 ---- *)
 Record opcheck := mk_ck {
-  k_obs_stats : list (option (Q * Q * Q));  (* per channel: impl (mean, var, count); None = channel not normalised *)
-  k_ret_stats : Q * Q * Q;
+  k_obs_stats : list (option (Q * Q * Q * Q)); (* per channel: impl (mean, var, count, hint s ~ sqrt(var+eps)); None = not normalised *)
+  k_ret_stats : Q * Q * Q * Q;
   k_returns : list Q;
-  k_obs_outs : list (nat * (Q * Q * Q));    (* channel, (raw x, hint s ~ sqrt(var+eps), impl y): observations and terminal observations *)
-  k_rew_outs : list (Q * Q * Q);            (* raw r, hint s, impl y *)
-  k_unnorm : list (nat * (Q * Q * Q)) }.    (* channel, (normalised y, hint s, impl unnormalised x) *)
+  k_out_obs : list (list Q);                   (* per env, per channel: returned observation ([] = not checked here) *)
+  k_out_term : list (option (list Q * list Q)); (* per env: raw terminal observation, returned terminal observation *)
+  k_unnorm : list (list Q);                    (* per env, per channel: unnormalize_obs(returned observation) *)
+  k_out_rews : list Q }.                       (* per env: returned reward ([] = not checked here) *)
 
 Definition tol9 : Q := 1 # 1000000000.
 
-Fixpoint stats_ok (ms : list rms) (is_ : list (option (Q * Q * Q))) : bool :=
+Fixpoint stats_ok (tol : Q) (ms : list rms) (is_ : list (option (Q * Q * Q * Q))) : bool :=
   match ms, is_ with
-  | m :: ms', Some (im, iv, ic) :: is' => rms_close tol9 tol9 m im iv ic && stats_ok ms' is'
-  | _ :: ms', None :: is' => stats_ok ms' is'
+  | m :: ms', Some (im, iv, ic, _) :: is' => rms_close tol tol m im iv ic && stats_ok tol ms' is'
+  | _ :: ms', None :: is' => stats_ok tol ms' is'
   | [], [] => true
   | _, _ => false
   end.
 
-Definition check_state (p : vnp) (st : vn) (k : opcheck) : list bool :=
-  let d := rms_init eps_default in
-  [ stats_ok (v_obs_rms st) (k_obs_stats k);
-    (let '(im, iv, ic) := k_ret_stats k in rms_close tol9 tol9 (v_ret_rms st) im iv ic);
-    forallb (fun b => b) (qclose_list tol9 tol9 (v_returns st) (k_returns k));
-    forallb (fun c => let '(ch, (x, s, y)) := c in
-                      let m := nth ch (v_obs_rms st) d in norm_out_ok x (r_mean m) (r_var m) (p_eps p) s (p_clip_obs p) y) (k_obs_outs k);
-    forallb (fun c => let '(r, s, y) := c in
-                      norm_out_ok r 0 (r_var (v_ret_rms st)) (p_eps p) s (p_clip_rew p) y) (k_rew_outs k);
-    forallb (fun c => let '(ch, (y, s, x)) := c in
-                      let m := nth ch (v_obs_rms st) d in unnorm_out_ok y (r_mean m) (r_var m) (p_eps p) s x) (k_unnorm k) ].
+(* one observation vector against the returned one, channel by channel *)
+Fixpoint vec_ok (f : rms -> Q -> Q -> Q -> bool) (ms : list rms) (is_ : list (option (Q * Q * Q * Q))) (xs ys : list Q) : bool :=
+  match ms, is_, xs, ys with
+  | m :: ms', Some (_, _, _, s) :: is', x :: xs', y :: ys' => f m s x y && vec_ok f ms' is' xs' ys'
+  | _ :: ms', None :: is', _ :: xs', _ :: ys' => vec_ok f ms' is' xs' ys'
+  | [], [], [], [] => true
+  | _, _, _, _ => false
+  end.
 
-Fixpoint vn_trace (p : vnp) (st : vn) (ops : list (vnop * opcheck)) : list (list bool) :=
+Fixpoint all2 {A B} (f : A -> B -> bool) (a : list A) (b : list B) : bool :=
+  match a, b with
+  | x :: a', y :: b' => f x y && all2 f a' b'
+  | _, _ => true
+  end.
+
+Definition op_obs (o : vnop) : list (list Q) := match o with OReset obs | OStep obs _ _ => obs | OSet _ _ _ => [] end.
+Definition op_rews (o : vnop) : list Q := match o with OStep _ rews _ => rews | _ => [] end.
+
+Definition check_state (tol : Q) (p : vnp) (st : vn) (o : vnop) (k : opcheck) : list bool :=
+  let ms := v_obs_rms st in
+  let th := 4 * tol + (1 # 100000000) in
+  let fn := fun (m : rms) (s x y : Q) => norm_out_ok th x (r_mean m) (r_var m) (p_eps p) s (p_clip_obs p) y in
+  let fu := fun (m : rms) (s y x : Q) => unnorm_out_ok th y (r_mean m) (r_var m) (p_eps p) s x in
+  [ stats_ok tol ms (k_obs_stats k);
+    (let '(im, iv, ic, _) := k_ret_stats k in rms_close tol9 tol9 (v_ret_rms st) im iv ic);
+    forallb (fun b => b) (qclose_list tol9 tol9 (v_returns st) (k_returns k));
+    all2 (vec_ok fn ms (k_obs_stats k)) (op_obs o) (k_out_obs k)
+    && forallb (fun t => match t with Some (x, y) => vec_ok fn ms (k_obs_stats k) x y | None => true end) (k_out_term k);
+    (let '(_, _, _, s) := k_ret_stats k in
+     all2 (fun r y => norm_out_ok (1 # 100000000) r 0 (r_var (v_ret_rms st)) (p_eps p) s (p_clip_rew p) y) (op_rews o) (k_out_rews k));
+    all2 (vec_ok fu ms (k_obs_stats k)) (k_out_obs k) (k_unnorm k) ].
+
+Fixpoint vn_trace (tol : Q) (p : vnp) (st : vn) (ops : list (vnop * opcheck)) : list (list bool) :=
   match ops with
   | [] => []
-  | (o, k) :: rest => let st' := vn_op update_red Qred p st o in check_state p st' k :: vn_trace p st' rest
+  | (o, k) :: rest => let st' := vn_op update_red Qred p st o in check_state tol p st' o k :: vn_trace tol p st' rest
   end.
 
 (* RunningMeanStd alone: batches through update, then other statistics through combine *)
